@@ -1,5 +1,5 @@
 /* C18: sa_addr_from_str / sa_addr_port_from_str / str_net_to_ss on ARBITRARY text (hostile input).
- * -DVF_FN_from | -DVF_FN_port | -DVF_FN_net, -DVF_N=<max text length>, optional -DVF_STRICT.
+ * -DVF_FN_from | -DVF_FN_port | -DVF_FN_net, -DVF_N=<max text length>.
  * Plain harness on the real sources: the text lives in an EXACT-size heap object of symbolic
  * length n <= VF_N with symbolic content (no NUL needed), so any read outside buf[0..n) is a
  * failed pointer check; inet_pton is the abstract model of stubs/inet.h (accepts or rejects
@@ -28,7 +28,10 @@ void harness(void) {
 #ifndef VF_REPLAY
 	__CPROVER_assume(buf != NULL);
 #endif
-	memcpy(buf, txt.b, n);
+	for (size_t i = 0; i < VF_N; i ++) {
+		if (i < n)
+			buf[i] = (char)txt.b[i];
+	}
 	uint16_t preflen = 0xfffe;
 	int r;
 #if defined(VF_FN_from)
@@ -44,17 +47,37 @@ void harness(void) {
 #error "select VF_FN_from / VF_FN_port / VF_FN_net"
 #endif
 	size_t alen = sp.a1 - sp.a0;
+	/* a NUL byte inside the address text ends it (the temporary copy is a C string) */
+	size_t elen = alen;
+	for (size_t i = alen; i > 0; i --) {
+		if (buf[sp.a0 + i - 1] == 0)
+			elen = i - 1;
+	}
 	VF_ASSERT(sp.a0 <= sp.a1 && sp.a1 <= n && sp.n0 <= n, "spec: split indices inside the input");
 	VF_ASSERT(r == 0 || r == EINVAL, "result is 0 or EINVAL");
 	VF_ASSERT(k >= n || buf[k] == (char)txt.b[k], "the input text is not modified");
+	/* the number after the separator: documented spelling = decimal digits only, in range */
+#if defined(VF_FN_port)
+	int numok = !sp.has_num || vf_spec_strict_num(buf + sp.n0, n - sp.n0, 5, 65535u);
+#elif defined(VF_FN_net)
+	/* 1..3 digits; the range (<= 32 / <= 128) depends on the family and is checked below */
+	int numok = !sp.has_num || vf_spec_strict_num(buf + sp.n0, n - sp.n0, 3, 999u);
+#else
+	int numok = 1;
+#endif
+	unsigned num = sp.has_num ? vf_spec_digits16(buf + sp.n0, n - sp.n0) : 0xffffu;
+	if (!numok) {
+		/* "rejects everything else with an error" */
+		VF_ASSERT(r == EINVAL, "a port / prefix length that is not a decimal number in range is rejected");
+	} else {
 #ifndef VF_REPLAY
 	/* what inet_pton was given: exactly the stripped address text, NUL-terminated */
 	if (alen == 0 || alen > VF_STRADDR_MAX) {
 		VF_ASSERT(r == EINVAL && vf_pton_calls == 0, "empty / over-long address text rejected before inet_pton");
 	} else {
 		VF_ASSERT(vf_pton_calls >= 1 && vf_pton_calls <= 2, "inet_pton consulted (AF_INET, then AF_INET6)");
-		VF_ASSERT(vf_pton_len == alen, "inet_pton text length == stripped address length");
-		VF_ASSERT(k >= alen || vf_pton_txt[k] == buf[sp.a0 + k], "inet_pton text byte k == input byte a0 + k");
+		VF_ASSERT(vf_pton_len == elen, "inet_pton text length == stripped address length (up to an embedded NUL)");
+		VF_ASSERT(k >= elen || vf_pton_txt[k] == buf[sp.a0 + k], "inet_pton text byte k == input byte a0 + k");
 		if (r == 0 && (ss.ss_family == AF_INET || ss.ss_family == AF_INET6)) {
 			VF_ASSERT(vf_pton_last_ret == 1 && vf_pton_last_af == ss.ss_family,
 			    "IP address accepted only when inet_pton accepted it for that family");
@@ -63,39 +86,42 @@ void harness(void) {
 			VF_ASSERT(vf_pton_last_ret == 0 && vf_pton_calls == 2 && (buf[sp.a0] == '/' || buf[sp.a0] == '.'),
 			    "UNIX path accepted only when inet_pton rejected both families and it starts with / or .");
 			const char *path = ((struct sockaddr_un *)&ss)->sun_path;
-			VF_ASSERT(path[alen < sizeof(((struct sockaddr_un *)0)->sun_path) ? alen : sizeof(((struct sockaddr_un *)0)->sun_path) - 1] == 0,
+			VF_ASSERT(path[elen < sizeof(((struct sockaddr_un *)0)->sun_path) ? elen : sizeof(((struct sockaddr_un *)0)->sun_path) - 1] == 0,
 			    "UNIX path NUL-terminated inside sun_path");
-			VF_ASSERT(k >= alen || k >= sizeof(((struct sockaddr_un *)0)->sun_path) - 1 || path[k] == buf[sp.a0 + k],
+			VF_ASSERT(k >= elen || k >= sizeof(((struct sockaddr_un *)0)->sun_path) - 1 || path[k] == buf[sp.a0 + k],
 			    "UNIX path byte k == input byte");
 		} else {
+#if defined(VF_FN_net)
+			/* an accepted IP address with a prefix length beyond its family's width */
+			VF_ASSERT((vf_pton_last_ret == 0 && vf_pton_calls == 2 && buf[sp.a0] != '/' && buf[sp.a0] != '.') ||
+			    (vf_pton_last_ret == 1 && sp.has_num && num > (vf_pton_last_af == AF_INET ? 32u : 128u)),
+			    "rejected only when inet_pton rejected both families and it is no path, or the length exceeds the family's width");
+#else
 			VF_ASSERT(vf_pton_last_ret == 0 && vf_pton_calls == 2 && buf[sp.a0] != '/' && buf[sp.a0] != '.',
 			    "rejected only when inet_pton rejected both families and it is no path");
+#endif
 		}
 	}
 #endif
-	/* the number after the separator */
-	unsigned num = sp.has_num ? vf_spec_digits16(buf + sp.n0, n - sp.n0) : 0xffffu;
 #if defined(VF_FN_from)
 	if (r == 0 && ss.ss_family != AF_UNIX)
 		VF_ASSERT(sa_port_get(&ss) == 0, "no port: port field 0");
 #elif defined(VF_FN_port)
 	if (r == 0 && ss.ss_family != AF_UNIX)
-		VF_ASSERT(sa_port_get(&ss) == (sp.has_num ? num : 0u), "port == number read from the digits after the separating colon");
-#ifdef VF_STRICT
-	if (r == 0 && ss.ss_family != AF_UNIX && sp.has_num)
-		VF_ASSERT(vf_spec_strict_num(buf + sp.n0, n - sp.n0, 65535u), "accepted ==> port text is 1..5 digits, value <= 65535, nothing else");
-#endif
+		VF_ASSERT(sa_port_get(&ss) == (sp.has_num ? num : 0u), "port == decimal number after the separating colon");
 #elif defined(VF_FN_net)
 	if (r == 0) {
 		unsigned full = (ss.ss_family == AF_INET) ? 32u : (ss.ss_family == AF_INET6) ? 128u : 0xffffu;
-		VF_ASSERT(preflen == (sp.has_num ? num : full), "prefix length == number after the last '/', else the full length");
-#ifdef VF_STRICT
-		if (sp.has_num && ss.ss_family != AF_UNIX)
-			VF_ASSERT(vf_spec_strict_num(buf + sp.n0, n - sp.n0, full), "accepted ==> prefix length text is digits only, value <= 32 / 128");
-#endif
+		if (ss.ss_family == AF_UNIX) {
+			/* a path is no network; nothing claimed about the length */
+		} else {
+			VF_ASSERT(preflen == (sp.has_num ? num : full), "prefix length == number after the last '/', else the family's width");
+			VF_ASSERT(preflen <= full, "accepted ==> prefix length <= 32 (IPv4) / 128 (IPv6)");
+		}
 	} else
 		VF_ASSERT(preflen == 0xfffe, "rejected: prefix length not written");
 #endif
+	}
 	free(buf);
 	VF_CANARY("parse harness end");
 }
